@@ -720,7 +720,10 @@ def make_step(node, op):
             cols[nm] = (sch.fields[j], newvals)
 
         def step(t, info):
-            kw = {nm: to_input(f, vals, "auto" if form == "list" else form) for nm, (f, vals) in cols.items()}
+            def typed(f, vals):
+                return len(vals) > 0 and (f.kind not in RAGGED_NUM or any(len(v) for v in vals))
+            kw = {nm: to_input(f, vals, "auto" if form == "list" else (form if typed(f, vals) else "native"))
+                  for nm, (f, vals) in cols.items()}
             info["lists"] = [(v, copy.deepcopy(v)) for v in kw.values() if isinstance(v, list) and form == "list"]
             return bnp.replace(t, **kw)
     elif name == "add":
@@ -1194,13 +1197,13 @@ def run(tier="quick", seed=0):
                             "replace every column (list, container, alternative container, two at once), add_fields typed / "
                             "inferred, 4 round trips; rep = one parameter per class (~28 operations); mini = one per operation (~10)",
         "primary kind schemas [k:int, v:kind] (int float bool Optional[int] str SequenceID List[int] strand DNA nested)":
-            "n=3: full x mini, n=0..2: full (depth 1)" if quick else "n=0..3: full x full; n=3: rep x mini x rep (depth 3)",
+            "n=3: full x mini, n=0..2: full (depth 1)" if quick else "n=0..3: full x full; n=3, kinds int str SequenceID List[int] strand nested: rep x mini x rep (depth 3)",
         "secondary kind schemas (Union[..,str] List[float] List[bool] quality cigar-op cigar-length BAM-sequence List[str])":
             "n in {0,1,3}: rep (depth 1)" if quick else "n=0..3: full x rep",
         "wide (10 kinds) / nested-in-nested / single-column": "n=3: rep x mini (singles: rep), n=0,1: rep" if quick else "n=0..3: full x rep",
         "bionumpy.datatypes (27 classes; 3 genotype-row classes not modelled)":
-            "n=3: rep, n=0: mini (depth 1)" if quick else "n=3: full x mini, n=0..2: rep",
-        "sampled": "%d random programs of 3 operations (full parameters) per kind / wide / nested schema, n=3, seeded" % (10 if quick else 100),
+            "n=3: rep, n=0: mini (depth 1)" if quick else "n=3: rep x mini, n=0..2: rep",
+        "sampled": "%d random programs of 3 operations (full parameters) per kind / wide / nested schema, n=3, seeded" % (25 if quick else 300),
         "construct": "every schema x n=0..3 x input forms python lists / keyword arguments / library containers / alternative "
                      "containers (tuple, numpy U/S arrays, base-encoded text, list of arrays) / cls.empty(); 12 ill-typed inputs x n in {1,3}; "
                      "one column shorter / longer by 1 in constructor, replace, add_fields",
@@ -1266,14 +1269,14 @@ def run(tier="quick", seed=0):
         if quick:
             section(sch.name, lambda: (run_programs(col, sch, [3], ("rep",)), run_programs(col, sch, [0], ("mini",))))
         else:
-            section(sch.name, lambda: (run_programs(col, sch, [3], ("full", "mini")),
+            section(sch.name, lambda: (run_programs(col, sch, [3], ("rep", "mini")),
                                        run_programs(col, sch, [0, 1, 2], ("rep",))))
     if not quick:
         for sch in kind_schemas():
-            if sch.name in primary:
+            if sch.name in ("K_int", "K_str", "K_sid", "K_li", "K_strand", "K_nested"):
                 section(sch.name + " d3", lambda: run_programs(col, sch, [3], ("rep", "mini", "rep")))
     for sch in kind_schemas() + other_schemas():
-        section(sch.name + " sampled", lambda: sample_programs(col, sch, 3, 3, 10 if quick else 100))
+        section(sch.name + " sampled", lambda: sample_programs(col, sch, 3, 3, 25 if quick else 300))
     return col.result()
 
 
